@@ -98,6 +98,7 @@ class Runner(object):
         self.res.recorder = rec
         try:
             w.start()
+            m.db_base.tx_lock.commit_count = lambda: len(rec.commits)
             self._load_outcomes()
             self._install_row_order()
             self.setup()
